@@ -66,6 +66,15 @@ CHECKS = {
         note=TB + "C12: E[copies]=N w_i is proved up to the closed form in u (integration step cited); categorical draws are TFP's (trusted), checked statistically at z=5.5.",
         technique="Lean 4 + Mathlib proof + differential correspondence with recovered randomness",
         design="§3 C12"),
+    "C18": dict(
+        text="Lean theorems for every kernel / initial state / n_steps / burn_in / thinning>=1: the retained states are the kernel iterates "
+             "after steps burn_in + i*thinning, accept flags aligned with exactly those steps, count = ceil((n-b)/k), acceptance count = "
+             "number of retained accepted steps, and chain(b,k) is that slice of chain(0,1). Tie: seed(chain(kernel)) over a grid of "
+             "(kernel, n, b, k, chains) with the same key vs its un-thinned run, vs manual iteration of the seeded kernel with the "
+             "per-iteration keys, and vs the Lean model fed the recorded run.",
+        note=TB + "C18: 'independent randomness across chains' rests on C07/C08; multi-chain runs are checked for the chain axis and distinct chains only.",
+        technique="Lean 4 proof + differential correspondence (same-key slice identity)",
+        design="§3 C18"),
 }
 
 NOT_YET = "check not built yet in this session (planned, see DESIGN.md §3/§6); not claimed"
